@@ -19,8 +19,14 @@ const KEYWORDS: &[&str] = &[
     "extends", "hiding", "renaming", "termination_by", "decreasing_by", "elab", "rec", "fuel",
 ];
 
+/// Lean names of the translated functions: a Rust variable of the same name is renamed (`iter` -> `iter_v`)
+pub static RESERVED: std::sync::Mutex<Vec<String>> = std::sync::Mutex::new(Vec::new());
+
 pub fn lean_ident(s: &str) -> String {
     let s = s.trim_start_matches("r#");
+    if RESERVED.lock().unwrap().iter().any(|r| r == s) {
+        return format!("{}_v", s);
+    }
     if KEYWORDS.contains(&s) {
         format!("{}_", s)
     } else if s == "_" {
@@ -425,7 +431,11 @@ impl<'a> Tr<'a> {
                     "Option" if targs.len() == 1 => Ty::Option(Box::new(self.conv_ty(targs[0]))),
                     "Result" if targs.len() == 2 => Ty::Result(Box::new(self.conv_ty(targs[0])), Box::new(self.conv_ty(targs[1]))),
                     "Self" => match &self.cur.self_ty {
-                        Some(t) => Ty::Adt(t.clone()),
+                        Some(t) => {
+                            let t = t.clone();
+                            let args = self.default_adt_args(&t);
+                            Ty::Adt(t, args)
+                        }
                         None => Ty::Opaque("Self".into()),
                     },
                     "ManuallyDrop" if targs.len() == 1 => self.conv_ty(targs[0]),
@@ -444,7 +454,12 @@ impl<'a> Tr<'a> {
                         } else if self.generics.contains(&name) {
                             Ty::Param(name)
                         } else if self.reg.structs.contains_key(&name) || self.reg.enums.contains_key(&name) {
-                            Ty::Adt(name)
+                            {
+                                let explicit: Vec<Ty> = targs.iter().map(|a| self.conv_ty(a)).collect();
+                                let n_params = self.adt_type_params(&name).len();
+                                let args = if !explicit.is_empty() && explicit.len() == n_params { explicit } else { self.default_adt_args(&name) };
+                                Ty::Adt(name, args)
+                            }
                         } else if let Some(al) = self.idx.find_alias(&name, &self.cur.module) {
                             // type alias: substitute its generic type parameters
                             let al = al.clone();
@@ -475,6 +490,46 @@ impl<'a> Tr<'a> {
         }
     }
 
+    /// names of the type parameters of a struct / enum (without the pattern-bound ones)
+    pub fn adt_type_params(&self, name: &str) -> Vec<String> {
+        let gens: Option<&syn::Generics> = self.idx.find_struct(name, &self.cur.module).map(|s| &s.generics).or_else(|| self.idx.find_enum(name, &self.cur.module).map(|e| &e.generics));
+        match gens {
+            Some(g) => {
+                let pats = pattern_generics(g);
+                g.type_params().map(|p| p.ident.to_string()).filter(|p| !pats.contains(p)).collect()
+            }
+            None => Vec::new(),
+        }
+    }
+
+    /// type arguments of an ADT named without explicit arguments: the same-named parameters in scope, else unknown
+    pub fn default_adt_args(&mut self, name: &str) -> Vec<Ty> {
+        let ps = self.adt_type_params(name);
+        ps.into_iter()
+            .map(|p| {
+                if let Some(t) = self.type_subst.get(&p) {
+                    t.clone()
+                } else if self.generics.contains(&p) {
+                    Ty::Param(p)
+                } else {
+                    self.sub.fresh()
+                }
+            })
+            .collect()
+    }
+
+    /// substitution of an ADT's own type parameters by the arguments of a value of that type
+    pub fn adt_subst(&self, name: &str, args: &[Ty]) -> HashMap<String, Ty> {
+        let ps = self.adt_type_params(name);
+        let mut m = HashMap::new();
+        if ps.len() == args.len() {
+            for (p, a) in ps.into_iter().zip(args.iter()) {
+                m.insert(p, a.clone());
+            }
+        }
+        m
+    }
+
     fn lean_ty(&self, t: &Ty) -> R<String> {
         let t = self.sub.resolve(t);
         Ok(match &t {
@@ -491,21 +546,28 @@ impl<'a> Tr<'a> {
             }
             Ty::Option(e) => format!("(Option {})", self.lean_ty(e)?),
             Ty::Result(a, b) => format!("(Except {} {})", self.lean_ty(b)?, self.lean_ty(a)?),
-            Ty::Adt(n) => {
+            Ty::Adt(n, targs) => {
                 let lean = self.reg.structs.get(n).or_else(|| self.reg.enums.get(n)).cloned().ok_or_else(|| format!("type `{}` is not a translation target", n))?;
                 // generic structs/enums: instantiated with the parameters of the same name in scope
                 let gens: Option<&syn::Generics> = self.idx.find_struct(n, &self.cur.module).map(|s| &s.generics).or_else(|| self.idx.find_enum(n, &self.cur.module).map(|e| &e.generics));
                 let mut args = String::new();
                 if let Some(g) = gens {
                     let pats = pattern_generics(g);
+                    let mut k = 0;
                     for p in g.type_params() {
                         if pats.contains(&p.ident.to_string()) {
                             continue;
                         }
                         args.push(' ');
-                        match self.type_subst.get(&p.ident.to_string()) {
-                            Some(t) => args.push_str(&self.lean_ty(t)?),
-                            None => args.push_str(&p.ident.to_string()),
+                        let known: Option<Ty> = targs.get(k).map(|t| self.sub.resolve(t));
+                        k += 1;
+                        match known {
+                            // a type argument that is known and is not just the same-named parameter
+                            Some(t) if !matches!(&t, Ty::Param(q) if *q == p.ident.to_string()) && !matches!(t, Ty::Var(_)) => args.push_str(&self.lean_ty(&t)?),
+                            _ => match self.type_subst.get(&p.ident.to_string()) {
+                                Some(t) => args.push_str(&self.lean_ty(t)?),
+                                None => args.push_str(&p.ident.to_string()),
+                            },
                         }
                     }
                     for p in g.const_params() {
@@ -537,7 +599,7 @@ impl<'a> Tr<'a> {
     /// the Rust type as text, with structs / enums under their Lean names (for signatures.json)
     pub fn ty_sig(&self, t: &Ty) -> String {
         match self.sub.resolve(t) {
-            Ty::Adt(n) => self.reg.structs.get(&n).or_else(|| self.reg.enums.get(&n)).cloned().unwrap_or(n),
+            Ty::Adt(n, _) => self.reg.structs.get(&n).or_else(|| self.reg.enums.get(&n)).cloned().unwrap_or(n),
             Ty::Slice(e) => format!("[{}]", self.ty_sig(&e)),
             Ty::Option(e) => format!("Option<{}>", self.ty_sig(&e)),
             Ty::Result(a, b) => format!("Result<{},{}>", self.ty_sig(&a), self.ty_sig(&b)),
@@ -712,6 +774,7 @@ fn subst_params(t: &Ty, map: &HashMap<String, Ty>) -> Ty {
         Ty::Ptr(e) => Ty::Ptr(Box::new(subst_params(e, map))),
         Ty::Result(a, b) => Ty::Result(Box::new(subst_params(a, map)), Box::new(subst_params(b, map))),
         Ty::Tuple(ts) => Ty::Tuple(ts.iter().map(|x| subst_params(x, map)).collect()),
+        Ty::Adt(n, args) => Ty::Adt(n.clone(), args.iter().map(|x| subst_params(x, map)).collect()),
         _ => t.clone(),
     }
 }
